@@ -29,13 +29,23 @@ import (
 
 var baseTime = time.Date(2024, 1, 1, 0, 0, 0, 0, time.UTC)
 
+// NoTimeMode: how the oldest version (1) of a record is rendered in the behaviour being replayed -- 0: with its advertisement
+// time like the others, 1: without one, 2: with an unparsable one (such a record is older than any dated one, newer than nothing).
+var NoTimeMode int
+
 // record builds the concrete provider record for (provider, source, version).
 func record(p string, src int, ver int) *model.ProviderInfo {
-	return &model.ProviderInfo{
+	pi := &model.ProviderInfo{
 		AddrInfo: peer.AddrInfo{ID: ids.Peer(p), Addrs: []multiaddr.Multiaddr{
 			multiaddr.StringCast(fmt.Sprintf("/ip4/9.%d.%d.1/tcp/%d", src, ver, 2000+ver))}},
 		LastAdvertisementTime: baseTime.Add(time.Duration(ver) * time.Hour).Format(time.RFC3339),
 	}
+	if ver == 1 && NoTimeMode == 1 {
+		pi.LastAdvertisementTime = ""
+	} else if ver == 1 && NoTimeMode == 2 {
+		pi.LastAdvertisementTime = "some time ago"
+	}
+	return pi
 }
 
 // versionOf projects a record returned by the cache back to the model's version.
@@ -45,6 +55,13 @@ func versionOf(pi *model.ProviderInfo) int {
 	}
 	t, err := time.Parse(time.RFC3339, pi.LastAdvertisementTime)
 	if err != nil {
+		// an undated record: the version is also in the third octet of its address
+		var a, b, c, e, port int
+		if len(pi.AddrInfo.Addrs) == 1 {
+			if n, _ := fmt.Sscanf(pi.AddrInfo.Addrs[0].String(), "/ip4/%d.%d.%d.%d/tcp/%d", &a, &b, &c, &e, &port); n == 5 && c == 1 {
+				return 1
+			}
+		}
 		return -99
 	}
 	return int(t.Sub(baseTime) / time.Hour)
